@@ -246,6 +246,15 @@ def run(ctx: Context, rep) -> None:
         "shard.write(...); neither is reachable when the write raised")
     check_counters(ctx, rep, "C18.count")
 
+    from sa.rules.c10 import check_couple
+    check_couple(ctx, rep, "C18.rollover")
+    rep.rule(
+        "C18.rollover",
+        "at a rollover the full shard is closed (and listed) before the "
+        "progress record points at the new shard and before the next write "
+        "is attempted, so a rejected first write of the new shard cannot "
+        "lose the previous shard's accepted examples (same check as "
+        "C10.couple)")
     c01.check_cast(ctx, rep, "C18.cast")
     c01.check_tfrec(ctx, rep, "C18.tables")
 
